@@ -214,13 +214,13 @@ func run(r *report.Report) {
 	N3, F3 := names(3), filters(3)
 	N2, F2 := names(2), filters(2)
 	part := func(name, bound, rule string, gen func(emit func(job))) {
-		t0 := time.Now()
+		t0 := r.Seconds()
 		s := &sweep{sigs: map[string]bool{}}
 		complete := par.Run(gen, work, s.collect, r.Deadline())
 		// a violating signature is reported once per (clause, witness); cap what is kept
 		v := s.viol
 		r.AddSweep(report.Part{Name: name, Mode: "sweep", Bound: bound, Evaluations: s.evals, Nontrivial: s.matched, Rule: rule + "; non-trivial = cases in which at least one stored entry matches the query (counted)",
-			Exhaustive: complete, Wall: time.Since(t0).Seconds(), Violations: s.nviol}, v)
+			Exhaustive: complete, Wall: r.Seconds() - t0, Violations: s.nviol}, v)
 	}
 	// (1) every (filter, name) pair in both directions on a one-entry tree
 	part("pairs", fmt.Sprintf("%d filters x %d names, depth <= 4, both directions", len(F4), len(N4)),
